@@ -7,6 +7,10 @@ PY=/venv/bin/python
 if ! "$PY" -c 'import hypothesis' 2>/dev/null; then
     /venv/bin/pip install --no-index --find-links /opt/veriftools/wheels hypothesis || exit 2
 fi
+# atheris (coverage-guided part of C12 / C13) goes beside, not into, the repository's environment
+if [ ! -d .deps/atheris ]; then
+    /venv/bin/pip install -q --no-index --find-links /opt/veriftools/wheels --target .deps atheris || echo "atheris not installable: the coverage-guided parts of C12/C13 will be skipped (noted in their evidence)"
+fi
 "$PY" -c 'import hypothesis, ply; print("hypothesis", hypothesis.__version__, "ply", ply.__version__)' || exit 2
 chmod +x check
 mkdir -p evidence replays .build
